@@ -175,6 +175,11 @@ def decodeYamlMap : List (String × YNode) → AMap Node → AMap Node
   | (k, v) :: rest, acc => decodeYamlMap rest (add acc k (decodeYamlNode v))
 end
 
+/-- `if node = dom.YamlNodeDecoder()(&yn); node == nil { node = dom.LeafNode(nil) }` -/
+def yamlResult : Option YNode → Node
+  | some n => decodeYamlNode n
+  | none => Node.null
+
 structure TemplateSpec where
   template : String
   path : String
@@ -203,11 +208,7 @@ def templateOp (render : String → Option String) (lenient : String → String)
     if mode = "yaml" then
       match yamlParse val with
       | none => (data, true)
-      | some yn =>
-        let node := match yn with
-          | some n => decodeYamlNode n
-          | none => Node.null
-        (addValueAt data (lenient t.path) node, false)
+      | some yn => (addValueAt data (lenient t.path) (yamlResult yn), false)
     else if mode = "none" then
       (addValueAt data (lenient t.path) (.leaf ⟨"string", val⟩), rendered.isNone)
     else (data, true)
